@@ -6,7 +6,7 @@ PROP = {
              "values (0, 1, max, max-1, 2^(w-1), min, -1, every VarUInteger byte length at both ends) and random values; (2) the 24 core "
              "block.tlb structures (MsgAddress, Grams, VarUInteger16, ExtraCurrencyCollection, CurrencyCollection, CommonMsgInfo, "
              "TickTock, SimpleLib, StateInit, Message, AccountStatus, AccStatusChange, ComputeSkipReason, HASH_UPDATE, StorageUsedShort, "
-             "the five transaction phases, SplitMergeInfo, TransactionDescr, Transaction, signed wallet body; and IntermediateAddress, MsgMetadata, MsgEnvelope v1/v2, InMsg (9 constructors), OutMsg (10), EnqueuedMsg, the account layer AccountState/AccountStorage/StorageInfo/StorageExtraInfo/Account/ShardAccount/DepthBalanceInfo, ExtBlkRef, BlkMasterInfo, ShardIdent, BlockIdExt, GlobalVersion, ImportFees, ShardFeeCreated, KeyExtBlkRef, KeyMaxLt, ValidatorInfo, ValidatorBaseInfo, Counters, CreatorStats, ProcessedUpto, IhrPendingSince, SigPubKey, CryptoSignatureSimple, ValidatorDescr, ValidatorTempKey, Certificate, StoragePrices, MsgForwardPrices, ParamLimits, BlockLimits, BlockCreateFees, ComplaintPricing, WorkchainFormat0/1, WcSplitMergeTimings, PrecompiledSmc, CatchainConfig) over 40 (800 thorough) "
+             "the five transaction phases, SplitMergeInfo, TransactionDescr, Transaction, signed wallet body; and IntermediateAddress, MsgMetadata, MsgEnvelope v1/v2, InMsg (9 constructors), OutMsg (10), EnqueuedMsg, the account layer AccountState/AccountStorage/StorageInfo/StorageExtraInfo/Account/ShardAccount/DepthBalanceInfo, ExtBlkRef, BlkMasterInfo, ShardIdent, BlockIdExt, GlobalVersion, ImportFees, ShardFeeCreated, KeyExtBlkRef, KeyMaxLt, ValidatorInfo, ValidatorBaseInfo, Counters, CreatorStats, ProcessedUpto, IhrPendingSince, SigPubKey, CryptoSignatureSimple, ValidatorDescr, ValidatorTempKey, Certificate, StoragePrices, MsgForwardPrices, ParamLimits, BlockLimits, BlockCreateFees, ComplaintPricing, WorkchainFormat0/1, WcSplitMergeTimings, PrecompiledSmc, CatchainConfig; the fixed part of block_info, ConfigParam 0-8, 11, 13-17, 22-25, 28, 29, 40, 43, BurningConfig, ConfigProposal(Setup), ConfigVotingSetup, ConsensusConfig (4 versions), MisbehaviourPunishmentConfig, SizeLimitsConfig, JettonBridgePrices, OracleBridgeParams, PrecompiledContractsConfig, SuspendedAddressList, AccountDispatchQueue) over 40 (800 thorough) "
              "random values each; (2b) the cursor family: the same structures that hold a bit string or a cell (MsgAddress, CommonMsgInfo, "
              "Message: 120 values; StateInit, SimpleLib, Transaction, TransactionDescr, signed body: 25) after the read cursors inside "
              "the Go value were advanced by 1/3/8/9/64/511 bits (a value that was decoded and inspected before being re-encoded): "
@@ -23,10 +23,11 @@ PROP = {
                     "(C04_encode_is_schema), hence re-encoding a decoded value reproduces the cell whenever the cell is the schema "
                     "serialisation; n-bit big-endian numerals, two's complement, minimal VarUInteger length and the #<= width are "
                     "characterised for all widths; the CreateExternalMessage envelope is given bit by bit. coq/Properties/C04_gen.v "
-                    "evaluates refines on the descriptors regenerated from today's Go struct definitions for 69 types (24 core + 45 envelope / in-out message / account / block / configuration records), prints the tlb struct/union types that still have NO schema obligation (69 today: the 41 ConfigParamN wrappers and 28 others - exactly where a symmetric edit would be invisible) and bounds that list; C04_library_resolver_scope: a library resolver configured on the decoder can only change typed positions, raw-cell and Any positions keep the library cell."),
+                    "evaluates refines on the descriptors regenerated from today's Go struct definitions for 105 types (24 core + 81 envelope / in-out message / account / block / configuration records), prints the tlb struct/union types that still have NO schema obligation (33 today: 18 ConfigParamN wrappers over dictionaries / validator sets / gas prices, and AddressWithWorkchain, BlkPrevInfo, BlockCreateStats, ConfigProposalStatus, CryptoSignatureSimpleData, GasLimitsPrices, JettonBridgeParams, ShardDesc, SignedCoins, ValidatorSet(s), ValidatorSetsCommon, VmCellSlice, VmStackValue, WorkchainDescr - exactly where a symmetric edit would be invisible) and bounds that list; C04_library_resolver_scope: a library resolver configured on the decoder can only change typed positions, raw-cell and Any positions keep the library cell."),
     'assumptions': ["the transcriptions in Spec/BlockTlb.v and the schema semantics in Spec/TlbSchema.v are hand-written from the TON documents (trusted specification)",
                     "HashmapE n X is specified only as hme_empty$0 | hme_root$1 ^Cell; the dictionary body (and its label forms: the library never writes hml_same, chain data uses the shortest form, so a re-encoded non-empty dictionary cell can differ from the source) is property C05",
                     "OutMsg msg_export_deq_short: block.tlb declares next_workchain:int32, the library holds the same 32 bits in a uint32 (workchain -1 reads as 4294967295); the transcription uses the unsigned reading; storage_extra_info dict_hash:uint256 is held as 32 bytes",
+                    "the five (## 1) flags of block_info are held as bools (same bit); ShardDesc (library omits split_merge_at and the fee fields, next_validator_shard is an int64) and WorkchainDescr (library omits the trailing format:(WorkchainFormat basic)) do not implement their block.tlb definitions in full and are therefore not pinned",
                     "prepare_transaction:^Transaction inside TransactionDescr is carried as an uninterpreted cell, as the Go type does",
                     "wallet v3/v4/v5/highload message bodies (hand-written PayloadV1toV4 / PayloadHighload / W5Actions codecs) have no descriptor yet and are not covered here; only the signed wrapper (signature:bits512 + payload) is",
                     "re-encoding reproduces the source cell only where TL-B admits one serialisation: non-minimal VarUInteger lengths and dictionary label forms are outside (C04_reencode_reproduces_cell has the schema serialisation as a premise)",
